@@ -49,6 +49,15 @@ def validate(doc):
         pvars = re.findall(r"\{([^}]*)\}", pkey)
         if len(set(pvars)) != len(pvars):
             out.append(("duplicate-path-variable", pkey))
+        if not any(item.get(m) is not None for m in METHODS):
+            # a resource without operations: the variables of its key are answered by the parameters of the path item alone
+            pp = [p for p in (item.get("parameters") or []) if isinstance(p, dict) and p.get("in") == "path"]
+            names = [p.get("name") for p in pp]
+            if sorted(names) != sorted(pvars):
+                out.append(("path-parameters-mismatch", "%s (no operations): variables %s, path parameters %s" % (pkey, pvars, names)))
+            for p in pp:
+                if p.get("required") is not True:
+                    out.append(("path-parameter-not-required", "%s: %s" % (pkey, p.get("name"))))
         for m in METHODS:
             op = item.get(m)
             if op is None:
